@@ -1194,7 +1194,7 @@ class Data(CorruptFamily):
         codes = unrle(obs["codes"])
         terms = []
         for k, (ed, c) in enumerate(zip(eds, codes)):
-            if c in ("hang", "adapter") or (k % 3 and c != "crash" and k >= 60):
+            if c in ("hang", "adapter") or (k % 4 and c != "crash" and k >= 40):
                 continue
             subs = "[" + "; ".join("(%d, %s)" % (p, clist(bs)) for p, bs in ed) + "]"
             terms.append("verdict_agrees (load_verdict %s %s %s) %s" % (cb(e["skip_tables"]), cb(e["skip_ref"]), stream_term(e, "(subst_many f %s)" % subs), vcode(c, e["api"])))
